@@ -112,6 +112,8 @@ type c25exec struct {
 	filled     bool
 
 	discard string // non-empty: scenario unusable (reason)
+	// relocated: the reconciler sees timestamps in a non-UTC location (same instants)
+	relocated bool
 	fired   []string
 	actions []c25action
 }
@@ -680,6 +682,22 @@ type recStorage struct {
 	x *c25exec
 }
 
+// relocate returns the same instant carrying a fixed zone in which the local
+// calendar date is the day BEFORE the UTC date (local time 23:59:59). Every
+// second scenario hands the reconciler its listing / head timestamps this way
+// (a metadata backend may return timestamps in any location; the instant is
+// unchanged, so the reference's due instants are too): code that derives the
+// "next midnight UTC" from the timestamp's local calendar date acts a day early.
+func (s *recStorage) relocate(t time.Time) time.Time {
+	if !s.x.relocated || t.IsZero() {
+		return t
+	}
+	u := t.UTC()
+	sec := u.Hour()*3600 + u.Minute()*60 + u.Second() + 1
+	s.x.r.Count("reconciler.timestamps-relocated", 1)
+	return t.In(time.FixedZone("verif-west", -sec))
+}
+
 func (s *recStorage) Start(context.Context) error { return nil }
 func (s *recStorage) Stop(context.Context) error  { return nil }
 
@@ -700,7 +718,7 @@ func (s *recStorage) ListObjects(ctx context.Context, b storage.BucketName, o st
 	if o.StartAfter != nil {
 		// a follow-up page of the sweep that is already running, not a new listing
 		s.x.r.Count("reconciler.calls.ListObjects.follow-up-page", 1)
-		return s.Next.ListObjects(ctx, b, o)
+		return s.relocObjects(s.Next.ListObjects(ctx, b, o))
 	}
 	// a fresh listing observes whatever was written before it: objects that
 	// were overwritten earlier in this pass are "listed" again from here on
@@ -710,7 +728,16 @@ func (s *recStorage) ListObjects(ctx context.Context, b storage.BucketName, o st
 		}
 	}
 	s.x.replacedKey = map[string]bool{}
-	return s.Next.ListObjects(ctx, b, o)
+	return s.relocObjects(s.Next.ListObjects(ctx, b, o))
+}
+
+func (s *recStorage) relocObjects(res *storage.ListBucketResult, err error) (*storage.ListBucketResult, error) {
+	if err == nil && res != nil && s.x.relocated {
+		for i := range res.Objects {
+			res.Objects[i].LastModified = s.relocate(res.Objects[i].LastModified)
+		}
+	}
+	return res, err
 }
 
 func (s *recStorage) ListObjectVersions(ctx context.Context, b storage.BucketName, o storage.ListObjectVersionsOptions) (*storage.ListObjectVersionsResult, error) {
@@ -721,12 +748,24 @@ func (s *recStorage) ListObjectVersions(ctx context.Context, b storage.BucketNam
 	if o.KeyMarker != nil {
 		s.x.r.Count("reconciler.calls.ListObjectVersions.follow-up-page", 1)
 	}
-	return s.Next.ListObjectVersions(ctx, b, o)
+	res, err := s.Next.ListObjectVersions(ctx, b, o)
+	if err == nil && res != nil && s.x.relocated {
+		for i := range res.Versions {
+			res.Versions[i].LastModified = s.relocate(res.Versions[i].LastModified)
+		}
+	}
+	return res, err
 }
 
 func (s *recStorage) ListMultipartUploads(ctx context.Context, b storage.BucketName, o storage.ListMultipartUploadsOptions) (*storage.ListMultipartUploadsResult, error) {
 	s.x.r.Count("reconciler.calls.ListMultipartUploads", 1)
-	return s.Next.ListMultipartUploads(ctx, b, o)
+	res, err := s.Next.ListMultipartUploads(ctx, b, o)
+	if err == nil && res != nil && s.x.relocated {
+		for i := range res.Uploads {
+			res.Uploads[i].Initiated = s.relocate(res.Uploads[i].Initiated)
+		}
+	}
+	return res, err
 }
 
 // The overwrite "after the key was listed" is injected at the reconciler's
@@ -748,7 +787,11 @@ func (s *recStorage) HeadObject(ctx context.Context, b storage.BucketName, k sto
 		s.x.maybeReplace(k.String())
 		s.x.callCtx = nil
 	}
-	return s.Next.HeadObject(ctx, b, k, o)
+	obj, err := s.Next.HeadObject(ctx, b, k, o)
+	if err == nil && obj != nil && s.x.relocated {
+		obj.LastModified = s.relocate(obj.LastModified)
+	}
+	return obj, err
 }
 
 // WithTransaction: a reconciler that re-checks and acts inside one transaction
@@ -1041,6 +1084,7 @@ func runC25Scenario(r *vkit.Run, env *vkit.Env, inner storage.Storage, sc c25Sce
 	start := time.Now().UTC()
 	x := &c25exec{r: r, ctx: ctx, env: env, inner: inner, sc: sc, m: newModel(), today: start.Truncate(24 * time.Hour), bucket: storage.MustNewBucketName(bucketName)}
 	x.ev = &evaluator{rules: sc.Rules, today: x.today, m: x.m}
+	x.relocated = sc.Relocated
 	// keep the whole scenario >= 2 min away from midnight UTC
 	if start.Sub(x.today) < 2*time.Minute || x.today.Add(24*time.Hour).Sub(start) < 2*time.Minute {
 		x.discard = "too-close-to-midnight-utc"
@@ -1157,6 +1201,7 @@ func runC25(tier, replay string) {
 	r := vkit.Begin("C25", "exploration", tier)
 	r.SetRule("scenario = generated rule set (1-3 S3-valid rules: legacy prefix / prefix / tag / size / And filters, Expiration Days 1-3 or Date, ExpiredObjectDeleteMarker, transitions to 1-2 classes with Days 0-3 or Date, noncurrent expiration/transition days 1-3 with NewerNoncurrentVersions 1-3, abort-incomplete days, enabled/disabled) x generated history on 1-3 keys (puts with sizes around the size thresholds / tag sets / classes, delete markers, version deletes, (un)tagging and user transitions of old versions, incomplete uploads, versioning off/enabled/suspended, ageing by whole days) x 3 reconcile passes whose injected clock is placed relative to a due instant computed by the reference (due-1ns, due, due+1ns, +-13h, +-400d), two of them optionally with the key overwritten (identical / different content) between listing and action; plus 'tagedge' scenarios (every rule filtered by 1-3 tag predicates, many with EMPTY values, objects untagged / carrying the tag with an empty or another value / carrying one of two filter tags / the key in another case) and 'paged' scenarios (versioned bucket padded with 2000+ rows of filler keys with their own 1-3 row histories so that every reconciler listing spans several pages; the scenario keys - current delete marker over older versions, sole delete marker, marker over older marker - are placed so that 0..all of their rows stay on the page ending at a multiple of 1000; ExpiredObjectDeleteMarker rule with each spelling of the empty prefix). distinct = distinct (rule-clause kinds, filter kinds, history op string, clock offsets) tuples")
 	r.Assume("reference = independent re-implementation of S3 lifecycle semantics (day-based instants round up to the next midnight UTC; noncurrent age counts from the successor's creation; NewerNoncurrentVersions counts noncurrent versions incl. delete markers (permissive reading); an expired object delete marker is a current delete marker that is the only version of its key; expiration beats transition)")
+	r.Assume(fmt.Sprintf("process time zone = %s; every second scenario hands the reconciler its listing/head timestamps relocated into a fixed zone whose calendar date is the day before the UTC date (same instants)", time.Now().Location()))
 	r.Assume("creation instants are the LastModified values pithos stored, each verified to lie inside the harness' wall-clock bracket of the creating call and on the run day; ageing is simulated by shifting created_at/updated_at of the bucket's object rows back by whole days through SQL (rows are exactly what an earlier write would have left)")
 	r.Assume("safety only: actions the reconciler does NOT take are never judged; scenarios whose model and storage disagree about the state before a pass (other properties' territory) are set aside and counted")
 	root := r.Rand()
@@ -1257,6 +1302,7 @@ func runC25(tier, replay string) {
 				}
 				inEnv++
 				sc := genScenario(root, i, extraOf(i))
+				sc.Relocated = i%2 == 1
 				x := runC25Scenario(r, env, inner, sc, fmt.Sprintf("c25-%d", i))
 				mu.Lock()
 				if x.discard != "" {
